@@ -322,6 +322,12 @@ def rule_shapes(chk, fb):
     kd = pre + "convert_password_to_key"
     if kd in fb.mir:
         rule_chain(chk, fb, rd, kd, OC.KEY_DERIVATION_CHAIN, "kdf")
+        # the password enters the first hash as UTF-16LE code units (surrogate pairs for characters beyond the BMP)
+        kb = fb.mir[kd]
+        names = [t.get("fn", "") for _, t in fb.calls_in(kb)]
+        le = any(n.endswith("to_le_bytes") for n in names) and any(n.endswith("encode_utf16") for n in names)
+        chars = any(n.endswith("str>::chars") for n in names)
+        chk.ob(rd, "kdf:utf16le", le and not chars, where=fb.loc(kd), detail="password bytes = to_le_bytes of encode_utf16 units: %s; per-char truncating conversion present: %s" % (le, chars))
     iv = pre + "create_iv"
     if iv in fb.mir:
         sites, fl, b = hash_sites(fb, iv)
